@@ -357,7 +357,9 @@ def call_banded(ctx, P, band, local, max_number, probe=False):
     ctx.op("align_banded[%s,%s]" % (mode, "affine" if isinstance(gp, tuple) else "linear"))
     info = dict(band=list(band), local=local, max_number=max_number)
     try:
-        res = align.align_banded(P.s1, P.s2, P.sm, band, gap_penalty=gp, local=local, max_number=max_number)
+        from vf.core import drop_defaults
+        res = align.align_banded(P.s1, P.s2, P.sm, band, **drop_defaults(ctx, dict(gap_penalty=gp, local=local, max_number=max_number),
+                                                                          dict(gap_penalty=-10, local=False, max_number=1000)))
     except ValueError as e:
         ctx.exc(e)
         if n > 0 and m > 0:
@@ -543,6 +545,8 @@ def call_gapped(ctx, P, seed, threshold, direction, max_number, max_table_size=N
     info = dict(seed=list(seed), threshold=threshold, direction=direction, max_number=max_number, max_table_size=max_table_size)
     ctx.op("align_local_gapped[%s,%s]" % (direction, "affine" if isinstance(gp, tuple) else "linear"))
     kw = dict(gap_penalty=gp, max_number=max_number, direction=direction)
+    from vf.core import drop_defaults
+    kw = drop_defaults(ctx, kw, dict(gap_penalty=-10, max_number=1, direction="both"))
     if max_table_size is not None:
         kw["max_table_size"] = max_table_size
     res = align.align_local_gapped(P.s1, P.s2, P.sm, seed, threshold, **kw)
@@ -616,7 +620,10 @@ def case_gapped(rng, ctx, allseeds):
 def call_ungapped(ctx, P, seed, threshold, direction):
     info = dict(seed=list(seed), threshold=threshold, direction=direction)
     ctx.op("align_local_ungapped[%s]" % direction)
-    ali = align.align_local_ungapped(P.s1, P.s2, P.sm, seed, threshold, direction)
+    if direction == "both" and ctx.index % 2 == 0:
+        ali = align.align_local_ungapped(P.s1, P.s2, P.sm, seed, threshold)          # documented default direction
+    else:
+        ali = align.align_local_ungapped(P.s1, P.s2, P.sm, seed, threshold, direction)
     ctx.check(isinstance(ali, align.Alignment), "trace_valid", "align_local_ungapped returned %s" % type(ali).__name__, **info)
     reported = judge_seeded(ctx, P, [ali], seed, threshold, direction, False, info)
     ctx.op("align_local_ungapped[score_only]")
